@@ -462,8 +462,15 @@ def parent_main(pid: str, tier: str) -> int:
         return 1
     if errors:
         print('HARNESS-ERROR (exit 2; not a violation):')
-        for e in errors[:5]:
+        shown = set()
+        for e in errors:
+            key = e.strip().splitlines()[-1] if e.strip() else ''
+            if key in shown:
+                continue
+            shown.add(key)
             print(e[-3000:])
+            if len(shown) >= 4:
+                break
         return 2
     return 0
 
